@@ -66,7 +66,7 @@ CLAIMED["C05"] = dict(
          "permitted (and, on the tunnel channel, enabled), HTTP/1.1 only without ALPN'; exact names designate their own entry under the "
          "uniqueness validate enforces; unknown/no SNI and HTTP/3 on TCP are refused; reload switches only on success (regenerated "
          "facts of core.rs); tied by a differential run of the real TlsDemux (settings + certificate files) and of "
-         "Core::reload_tls_hosts_settings histories against the extracted model and an independent oracle; one known finding",
+         "Core::reload_tls_hosts_settings histories against the extracted model and an independent oracle; one known finding; one real TLS handshake per query against the real listener: accepted or refused, and the ALPN protocol announced, as the demultiplexer's documented choice says (HTTP/3 never on TCP)",
     note="trusted: Coq kernel, Model/TlsDemux.v, Spec/SniRouting.v, translator facts (DemuxFacts.v), extraction + driver, harness doors "
          "verif::demux; RwLock linearisation and certificate loading are environment; QUIC double select not driven",
     design="DESIGN.md 5 C05")
@@ -89,7 +89,7 @@ CLAIMED["C02"] = dict(
          "then EOF passed on and flushed, in both directions; a failure of either side ends the tunnel with an error and never "
          "cleanly; restarts lose nothing. Tied by regenerated structural facts of pipe.rs and a differential run of the real "
          "DuplexPipe::exchange on scripted endpoints under tokio's paused clock against the extracted model (outcome, end instant, "
-         "all counters), plus direct oracles on the real run",
+         "all counters), plus direct oracles on the real run; whole tunnels through the real endpoint (Core::listen) to an echo server over HTTP/1.1-TLS, HTTP/2-TLS and HTTP/3-QUIC, up to 1 MB (3 MB thorough) with a slowly reading peer, must return exactly the bytes sent and end cleanly",
     note="partial: cancel-safety of library reads (h2, quiche, mpsc) is assumed; real socket back-pressure is replaced by scripted "
          "acceptance patterns; trusted: Coq kernel, Model/Pipe.v, translator facts, extraction + driver, harness door verif::pipe",
     design="DESIGN.md 5 C02")
@@ -210,7 +210,7 @@ CLAIMED["C16"] = dict(
          "counters, by exactly the uploaded bytes on inbound_traffic_bytes and the downloaded bytes on outbound_traffic_bytes of the "
          "session's protocol. Tied by translator facts (names, label, own registry, guards and where they are held, direction mapping, "
          "sent-bytes-only, listener paths) and by histories on the real stack (HTTP/1.1 and HTTP/2 sessions, CONNECT tunnels to a "
-         "transfer canary, failed connects, closes) with snapshots, the collect text and GETs on the metrics listener",
+         "transfer canary, failed connects, closes) with snapshots, the collect text and GETs on the metrics listener; datagram counters: the real UDP multiplexer with a client side that refuses every k-th reply (theorem datagram_counter_is_delivered_bytes)",
     note="partial: the UDP gauge is driven by C07's live runs, not here; HTTP/3 sessions are not driven; label values are HTTP1/HTTP2/HTTP3 "
          "in the code and http1/http2/http3 in METRICS.md (known finding metrics-label-values-upper-case); trusted: Coq kernel, "
          "Model/Metrics.v, translator facts, extraction + driver, doors verif::session / verif::metrics",
